@@ -8,7 +8,7 @@ S=/verif/seeded/$id
 cd /verif
 if [ -n "$(git -C /repo status --porcelain)" ]; then echo "/repo not clean"; exit 3; fi
 git -C /repo apply $S/patch.diff || { echo "$id: patch does not apply"; exit 3; }
-out=$S/check_output.txt; : > $out
+out=$S/check_output.txt; touch $out
 for c in $checks; do
   echo "### ./check $c --tier ${TIER:-quick} (with $id applied)" >> $out
   ./check $c --tier ${TIER:-quick} --no-evidence >> $out 2>&1
